@@ -154,6 +154,10 @@ pub fn jobs(ctx: &Ctx) -> Vec<Case> {
                 for kk in 0..4 {
                     push("name-with-blanks", 0, kk, 0);
                 }
+                // the bare name "-" is a file name like any other (k=0: nothing there yet; k=1: a directory of that name)
+                for kk in 0..2 {
+                    push("name-dash", 0, kk, 0);
+                }
                 // an embedded image given as a RELATIVE path while the output goes to another directory: a real image of
                 // that name lies in the working directory (k=0), next to the output file (k=1), or a different one in
                 // both places (k=2) - whatever the in-memory rendering shows, the file must show the same
@@ -251,6 +255,12 @@ pub fn observe(ctx: &Ctx, st: &mut Stats, c: &Case, idx: usize) {
             let _ = std::os::unix::fs::symlink(&real, &p);
             p
         }
+        "name-dash" => {
+            if c.k == 1 {
+                let _ = std::fs::create_dir_all(dir.join("-"));
+            }
+            PathBuf::from("-")
+        }
         "name-with-blanks" => dir.join(match c.k {
             0 => format!("out.{ext} "),
             1 => format!(" out.{ext}"),
@@ -292,9 +302,12 @@ pub fn observe(ctx: &Ctx, st: &mut Stats, c: &Case, idx: usize) {
     };
     let log = dir.join("shim.log");
     let exe = std::env::current_exe().expect("current_exe");
+    // "-" is handed over as the bare relative name; it is relative to the child's working directory (the case's own)
+    let target_arg: PathBuf = target.clone();
+    let target = if c.fault == "name-dash" { dir.join(&target) } else { target };
     let mut cmd = Command::new(exe);
-    cmd.arg("c19-child").arg(c.to_json().to_string()).arg(&target).stdout(Stdio::piped()).stderr(Stdio::piped());
-    if c.fault == "relative-image" {
+    cmd.arg("c19-child").arg(c.to_json().to_string()).arg(&target_arg).stdout(Stdio::piped()).stderr(Stdio::piped());
+    if c.fault == "relative-image" || c.fault == "name-dash" {
         cmd.current_dir(&dir);
     }
     let injected = matches!(c.fault.as_str(), "create-fails" | "write-fails" | "short-writes" | "eintr" | "existing-longer-short-writes" | "exact-length-short-writes");
@@ -353,7 +366,7 @@ pub fn observe(ctx: &Ctx, st: &mut Stats, c: &Case, idx: usize) {
     };
     let ok = result.starts_with("ok");
     // oracle
-    let hard_expected = REAL_FAULTS.contains(&c.fault.as_str()) || delivered_hard;
+    let hard_expected = REAL_FAULTS.contains(&c.fault.as_str()) || delivered_hard || (c.fault == "name-dash" && c.k == 1);
     if injected && matches!(c.fault.as_str(), "create-fails" | "write-fails") && !delivered_hard {
         // the configured fault was never reached (k beyond the number of writes): not a pass, not a failure
         st.count("configured_faults_not_reached", 1);
@@ -482,6 +495,8 @@ pub fn child_main(arg: &str, target: &str) -> i32 {
     });
     match r {
         Ok((want, res)) => {
+            // (whatever the call may have written to this process's standard output, the protocol starts a new line)
+            println!();
             println!("EXPECT {:016x} {}", fnv(&want), want.len());
             match res {
                 Ok(()) => println!("RESULT ok"),
@@ -507,7 +522,7 @@ pub fn run(ctx: &Ctx) -> Report {
     st.sets.remove("unreached");
     let mut rep = Report::new(
         st,
-        "cases = {SVG, PNG} x versions {1,7,40} (thorough: all 40) x option sets x fault classes: none; destination already exists (6 MiB longer file, 5-byte shorter file, symbolic link to a longer file, longer file + short writes): Ok must leave exactly the rendering, no stale tail; SVG documents padded (through the image string) to exactly 4096, 8191, 8192, 8193, 16384, 32768, 65535, 65536, 65537, 131072, 196608, 262144 bytes, also under short writes; file names that begin or end with white space (the named file, not a trimmed one, must hold the bytes); an embedded image given as a relative path with a real image of that name in the working directory, next to the output file (another directory), or different ones in both; the same process has just written another rendering to the same or to another path (identical / same symbol with one size-deciding option changed / bigger symbol / other colour); real faults: missing directory (ENOENT), path is a directory (EISDIR), parent is a regular file (ENOTDIR), over-long name (ENAMETOOLONG), paths without a file-name component (dir/., dir/sub/.., dir/x/.., the empty path), an absolute path with a blank in front (a relative path into a missing directory), /dev/full (ENOSPC at write time); injected by an LD_PRELOAD shim scoped to the case's scratch directory: create fails with EACCES/EROFS/EMFILE, first write fails with ENOSPC/EIO/EDQUOT, k-th write of a chunked stream fails (k in 2,3,5,9; 1024-byte chunks; 7-byte chunks), every write short (7 / 4096 bytes), EINTR on every other write (with and without short writes); each case runs to_file in a child process; the shim logs every interception and every fault actually DELIVERED; oracle: Ok(()) => the file's bytes equal the in-memory rendering computed in the same child; a delivered hard fault => Err(_) converted through ConvertError::from, normal exit, no panic; only benign perturbations => Ok with full content; a configured fault that was never reached is counted separately and is not a pass for the error half; distinct key = case; every case non-trivial",
+        "cases = {SVG, PNG} x versions {1,7,40} (thorough: all 40) x option sets x fault classes: none; destination already exists (6 MiB longer file, 5-byte shorter file, symbolic link to a longer file, longer file + short writes): Ok must leave exactly the rendering, no stale tail; SVG documents padded (through the image string) to exactly 4096, 8191, 8192, 8193, 16384, 32768, 65535, 65536, 65537, 131072, 196608, 262144 bytes, also under short writes; file names that begin or end with white space (the named file, not a trimmed one, must hold the bytes); the bare relative name \"-\" (a file of that name must hold the bytes; a directory of that name is an error); an embedded image given as a relative path with a real image of that name in the working directory, next to the output file (another directory), or different ones in both; the same process has just written another rendering to the same or to another path (identical / same symbol with one size-deciding option changed / bigger symbol / other colour); real faults: missing directory (ENOENT), path is a directory (EISDIR), parent is a regular file (ENOTDIR), over-long name (ENAMETOOLONG), paths without a file-name component (dir/., dir/sub/.., dir/x/.., the empty path), an absolute path with a blank in front (a relative path into a missing directory), /dev/full (ENOSPC at write time); injected by an LD_PRELOAD shim scoped to the case's scratch directory: create fails with EACCES/EROFS/EMFILE, first write fails with ENOSPC/EIO/EDQUOT, k-th write of a chunked stream fails (k in 2,3,5,9; 1024-byte chunks; 7-byte chunks), every write short (7 / 4096 bytes), EINTR on every other write (with and without short writes); each case runs to_file in a child process; the shim logs every interception and every fault actually DELIVERED; oracle: Ok(()) => the file's bytes equal the in-memory rendering computed in the same child; a delivered hard fault => Err(_) converted through ConvertError::from, normal exit, no panic; only benign perturbations => Ok with full content; a configured fault that was never reached is counted separately and is not a pass for the error half; distinct key = case; every case non-trivial",
     );
     rep.level = "fault_enumeration";
     rep.expected_sets = vec![("fault_classes", 21), ("fault_class_x_format", 40)];
